@@ -350,11 +350,15 @@ type pNode struct {
 	got       *Event
 	ret       *Event
 	err       error
+	// what the format table of the received event looked like on arrival
+	gotFmtNil bool
+	gotFmtLen int
 }
 
 func (n *pNode) Process(ctx context.Context, e *Event) (*Event, error) {
 	n.calls++
 	n.got = e
+	n.gotFmtNil, n.gotFmtLen = e.Formatted == nil, len(e.Formatted)
 	switch n.outcome {
 	case 0:
 		n.ret = e
@@ -470,6 +474,8 @@ func H_C01_process_seq() {
 			}
 			verifAssert(nd.calls == 1, "C01.order.invoked-exactly-once")
 			verifAssert(nd.got == in, "C01.order.receives-predecessor-result")
+			// ... as it was returned: the stubs' new events have no format table, the sent one an empty table
+			verifAssert(nd.gotFmtNil == (in != e) && nd.gotFmtLen == 0, "C01.order.receives-it-as-returned")
 			switch {
 			case nd.err != nil:
 				alive = false
